@@ -117,13 +117,15 @@ def _is_new_function(q: str) -> bool:
     from .inline import frozen_functions
     fr = frozen_functions()
     parts = q.split('.')
-    for i in range(len(parts) - 1, 0, -1):
-        mod = '.'.join(parts[:i])
-        if mod in fr:
-            rest = parts[i:]
-            if len(rest) == 1:
-                return rest[0] not in fr[mod]
-            return rest[0] not in fr.get('<classes>', {}).get(mod, []) and rest[0] not in fr[mod]
+    # module.function | module.Class.method | module.function.nested - only when the module itself is in the table
+    for cut in (1, 2):
+        if len(parts) > cut:
+            mod = '.'.join(parts[:-cut])
+            if mod in fr and not mod.startswith('<'):
+                rest = parts[-cut:]
+                if cut == 1:
+                    return rest[0] not in fr[mod]
+                return rest[0] not in fr.get('<classes>', {}).get(mod, []) and rest[0] not in fr[mod]
     return False
 
 
